@@ -936,8 +936,7 @@ class Interp(object):
                     if got == set(frozenset((st.canon(a_), st.canon(b_))) for a_, b_ in tp):
                         st.tags = dict(st.tags)
                         st.tags['pred:' + pname] = False
-                st.neq.add(frozenset((st.canon(a), st.canon(b))))
-                return True
+                return st.add_neq(a, b)
             if truth:
                 return st.union(a, b)
             return st.add_neq(a, b)
